@@ -12,6 +12,9 @@ STATIC_THEOREMS = [
     'SnapraidVerif.Props.C10.hashes_roundtrip',
     'SnapraidVerif.Props.C10.run_roundtrip',
     'SnapraidVerif.Props.C10.simple_records_roundtrip',
+    'SnapraidVerif.Props.C10.rec_roundtrip',
+    'SnapraidVerif.Props.C10.recs_roundtrip',
+    'SnapraidVerif.Props.C10.content_roundtrip',
 ]
 
 def compare_views(a, s, dec, stats):
